@@ -44,6 +44,7 @@
 #include <set>
 #include <memory>
 #include <algorithm>
+#include <climits>
 
 typedef int64_t i64;
 // view of hv::out whose tag() records each marker once per op line
@@ -91,6 +92,7 @@ static std::vector<std::string> split(const std::string &s, char c)
     }
     return v;
 }
+static long parse_wide(const std::string &x);
 static std::vector<rule> parse_rules(const std::string &s)
 {
     std::vector<rule> rs;
@@ -205,6 +207,10 @@ template <class Spec> struct impl : iface
     mgr_t *mgr = nullptr;
     std::vector<tim_t *> tim;
     int unarmed = -1;
+    unsigned long off = 0; // added (modulo 2^w) to every tick value handed to the code: moves the history next to the wrap
+    using UT = typename std::make_unsigned<T>::type;
+    using ST_ = typename std::make_signed<T>::type;
+    T tt(i64 v) const { return (T)(UT)((unsigned long)v + off); }
     tim_t *make(int i)
     {
         if (i == unarmed) return new tim_t(igris::delegate<void, int>(), (int)i);
@@ -215,7 +221,7 @@ template <class Spec> struct impl : iface
         default: return new tim_t(igris::make_delegate(ext_fire, (void *)&FIRER), (int)i);
         }
     }
-    impl(int n, int unarmed_) : unarmed(unarmed_)
+    impl(int n, int unarmed_, unsigned long off_ = 0) : unarmed(unarmed_), off(off_)
     {
         mgr = new mgr_t;
         for (int i = 0; i < n; i++) tim.push_back(make(i));
@@ -226,16 +232,16 @@ template <class Spec> struct impl : iface
         delete mgr;
     }
     size_t n() const override { return tim.size(); }
-    void plan(int i, i64 s, i64 iv) override { mgr->plan(*tim[i], (T)s, (D)iv); }
-    void set_start(int i, i64 v) override { tim[i]->set_start((T)v); }
+    void plan(int i, i64 s, i64 iv) override { mgr->plan(*tim[i], tt(s), (D)iv); }
+    void set_start(int i, i64 v) override { tim[i]->set_start(tt(v)); }
     void set_interval(int i, i64 v) override { tim[i]->set_interval((D)v); }
     void plan1(int i) override { mgr->plan(*tim[i]); }
     void unplan(int i) override { tim[i]->unplan(); }
-    void exec(i64 now) override { mgr->exec((T)now); }
+    void exec(i64 now) override { mgr->exec(tt(now)); }
     bool is_planned(int i) override { return tim[i]->is_planned(); }
     i64 finish(int i) override { return (i64)tim[i]->finish(); }
     bool empty() override { return mgr->empty(); }
-    i64 minimal_interval(i64 cur) override { return (i64)mgr->minimal_interval((T)cur); }
+    i64 minimal_interval(i64 cur) override { return (i64)mgr->minimal_interval(tt(cur)); }
     void renew(int i) override
     {
         delete tim[i];
@@ -248,13 +254,16 @@ template <class Spec> struct impl : iface
     }
     i64 virt(i64 raw, i64 cur) override
     {
-        if (sizeof(T) == 8) return raw;
-        return cur + (i64)(int32_t)((uint32_t)raw - (uint32_t)cur);
+        if (sizeof(T) == 8 && off == 0) return raw;
+        return cur + (i64)(ST_)(UT)((UT)raw - (UT)tt(cur));
     }
-    i64 raw_time(i64 v) override { return (i64)(T)v; }
+    i64 raw_time(i64 v) override { return (i64)tt(v); }
     i64 raw_diff(i64 v) override { return (i64)(D)v; }
 };
 typedef igris::timer_spec<uint32_t> spec_u32;
+typedef igris::timer_spec<int32_t> spec_i32;
+typedef igris::timer_spec<int64_t> spec_i64;
+static_assert(std::is_same<spec_i32::difftime_t, int32_t>::value, "difftime_t of the int32_t instance is int32_t");
 static_assert(std::is_same<spec_u32::difftime_t, uint32_t>::value, "difftime_t of the unsigned instance is uint32_t");
 static_assert(std::is_same<igris::timer_manager, igris::timer_manager_basic<igris::timer_spec<int64_t>>>::value, "");
 
@@ -532,6 +541,7 @@ static __int128 parse_big(const std::string &x)
     return neg ? -v : v;
 }
 static bool ST_WIDE = false;
+static bool ST_LONG = false; // reset T: the op lines carry `long` values; oracle = the rule of stimer.c on 128-bit integers
 static __int128 ST_VSTART = 0, ST_VIV = 0; // the unbounded values the stimer fields stand for (reset S)
 
 static void run_op(const std::vector<std::string> &w, const std::string &, hv::out &o_)
@@ -543,10 +553,11 @@ static void run_op(const std::vector<std::string> &w, const std::string &, hv::o
     if (op == "reset")
     {
         drop_world();
-        if (w[1] == "s" || w[1] == "S")
+        if (w[1] == "s" || w[1] == "S" || w[1] == "T")
         {
             memset(&ST, 0, sizeof ST);
             ST_WIDE = w[1] == "S";
+            ST_LONG = w[1] == "T";
             ST_VSTART = ST_VIV = 0;
             o.result = "ok";
             return;
@@ -555,6 +566,18 @@ static void run_op(const std::vector<std::string> &w, const std::string &, hv::o
         {
             W_.t = new impl<spec_u32>(atoi(w[2].c_str()), -1);
             W_.oracle_on = w[1] == "u";
+        }
+        else if (w[1] == "i" || w[1] == "I")
+        {
+            // timer_spec<int32_t>: a signed 32-bit tick counter (wraps after 2^31 ticks)
+            W_.t = new impl<spec_i32>(atoi(w[2].c_str()), -1);
+            W_.oracle_on = w[1] == "i";
+        }
+        else if (w[1] == "l")
+        {
+            // the shipped timer_spec<int64_t>; every tick value of the op lines is moved by <off> (modulo 2^64)
+            // before the code sees it, so that a history around 0 runs across the wrap of the 64-bit counter
+            W_.t = new impl<spec_i64>(atoi(w[2].c_str()), -1, (unsigned long)parse_wide(w[3]));
         }
         else if (w[1] == "z")
         {
@@ -772,6 +795,88 @@ static void run_op(const std::vector<std::string> &w, const std::string &, hv::o
         return;
     }
 #undef T
+    if (ST_LONG)
+    {
+        // stimer on `long` values exactly as given; the oracle evaluates the statement on 128-bit integers:
+        //   stimer_check <-> planed && (elapsed = (curtime - start) reduced modulo 2^64 into [-2^63, 2^63)) >= interval
+        //   and, whenever curtime - start itself lies in [-2^63, 2^63) (the admissible region of the transfer theorem):
+        //   stimer_check <-> planed && start + interval <= curtime   over the integers (no wrap)
+        typedef __int128 I128;
+        const I128 P63_ = (I128)1 << 63, P64_ = (I128)1 << 64;
+        auto red = [&](I128 v) { while (v >= P63_) v -= P64_; while (v < -P63_) v += P64_; return v; };
+        auto judge = [&](long now, const struct stimer_head &b, bool &inwin) {
+            I128 d = (I128)now - (I128)b.start;
+            inwin = d >= -P63_ && d < P63_;
+            return b.planed != 0 && red(d) >= (I128)b.interval;
+        };
+        auto tags = [&](long now, const struct stimer_head &b, bool inwin) {
+            o.tag("stimer-long");
+            if (!inwin) o.tag("stimer-outside-window");
+            else if (now < b.start) o.tag("stimer-start-ahead-of-clock");
+            if (b.interval >= LONG_MAX - 1 || b.interval == LONG_MIN) o.tag("stimer-huge-interval");
+            if (b.interval <= 0) o.tag("stimer-nonpositive-interval");
+            if ((I128)b.start + b.interval > LONG_MAX || (I128)b.start + b.interval < LONG_MIN) o.tag("stimer-deadline-beyond-wrap");
+        };
+        if (op == "sinit") { stimer_init(&ST, I(1), I(2)); if (ST.start != I(1) || ST.interval != I(2) || ST.planed != 0) o.fail("stimer_init: fields"); o.result = show_st(); o.tag("stimer-long"); return; }
+        if (op == "splan") { stimer_plan(&ST, I(1), I(2)); if (ST.start != I(1) || ST.interval != I(2) || ST.planed != 1) o.fail("stimer_plan: fields"); o.result = show_st(); o.tag("stimer-long"); return; }
+        if (op == "sstart") { struct stimer_head b = ST; stimer_start(&ST, I(1)); if (ST.start != I(1) || ST.interval != b.interval || ST.planed != 1) o.fail("stimer_start: fields"); o.result = show_st(); o.tag("stimer-long"); return; }
+        if (op == "sswift")
+        {
+            struct stimer_head b = ST;
+            stimer_swift(&ST);
+            if ((I128)ST.start != red((I128)b.start + b.interval) || ST.interval != b.interval || ST.planed != b.planed) o.fail("stimer_swift: start is not (start + interval) modulo 2^64");
+            o.result = show_st();
+            o.tag("stimer-long");
+            return;
+        }
+        if (op == "sfinish")
+        {
+            unsigned long f = stimer_finish(&ST);
+            I128 want = (I128)ST.start + ST.interval;
+            while (want < 0) want += P64_;
+            while (want >= P64_) want -= P64_;
+            if ((I128)f != want) o.fail("stimer_finish != (start + interval) modulo 2^64");
+            o.result = std::to_string(f);
+            o.tag("stimer-long");
+            return;
+        }
+        if (op == "scheck" || op == "speriodic")
+        {
+            long now = I(1);
+            struct stimer_head b = ST;
+            bool inwin = false;
+            bool due = judge(now, b, inwin);
+            bool due_int = b.planed != 0 && (I128)b.start + b.interval <= (I128)now;
+            tags(now, b, inwin);
+            bool got;
+            if (op == "scheck")
+            {
+                int c = stimer_check(&ST, now);
+                got = c != 0;
+                if (c != 0 && c != 1) o.fail("stimer_check returned neither 0 nor 1");
+                o.result = c ? "1" : "0";
+                if (ST.start != b.start || ST.interval != b.interval || ST.planed != b.planed) o.fail("stimer_check changed the timer");
+                o.tag(c ? "stimer-due" : (ST.planed ? "stimer-not-due" : "stimer-unplanned"));
+            }
+            else
+            {
+                bool fired = false;
+                STIMER_PERIODIC(&ST, now) { fired = true; }
+                got = fired;
+                if (fired && ((I128)ST.start != red((I128)b.start + b.interval) || ST.interval != b.interval || ST.planed != b.planed))
+                    o.fail("STIMER_PERIODIC re-arm is not previous start + interval (modulo 2^64)");
+                if (!fired && (ST.start != b.start || ST.interval != b.interval || ST.planed != b.planed)) o.fail("STIMER_PERIODIC changed a timer that is not due");
+                o.result = std::string(fired ? "1 " : "0 ") + show_st();
+                o.tag(fired ? "stimer-periodic-fired" : "stimer-periodic-idle");
+            }
+            if (got != due) o.fail("stimer: due differs from planed && elapsed (modulo 2^64, as signed) >= interval");
+            if (inwin && got != due_int) o.fail("stimer: due differs from planed && start + interval <= curtime although curtime is within half the range of start");
+            return;
+        }
+        o.result = "bad-op";
+        o.fail("unknown op");
+        return;
+    }
     if (ST_WIDE)
     {
         // stimer fed with tick values modulo 2^64; oracle: the rule on the unbounded values
@@ -1190,11 +1295,16 @@ static std::string gen_rules_wrap(hv::rng &r, int n, i64 now, const std::vector<
 
 // histories that respect the window precondition: starts <= the clock, every deadline >= the time of the
 // previous exec, (gap between execs) + (interval) < 2^31
+static void gen_wrap_case_m(hv::rng &r, const std::string &mode, const std::string &suffix, const std::vector<i64> &bases);
 static void gen_wrap_case(hv::rng &r)
 {
-    int n = (int)r.range(1, 5);
-    emit("reset u " + S(n));
     static const std::vector<i64> bases = {P32 - 40, P32 - 40, P32 - 1000, 3 * P32 - 25, P31 - 30, P32 - P30, 2 * P32 - P30 - 500, 0};
+    gen_wrap_case_m(r, "u", "", bases);
+}
+static void gen_wrap_case_m(hv::rng &r, const std::string &mode, const std::string &suffix, const std::vector<i64> &bases)
+{
+    int n = (int)r.range(1, 5);
+    emit("reset " + mode + " " + S(n) + suffix);
     // a case has either small intervals and small steps, or large intervals and steps of up to a quarter of
     // the range (a large step over a small interval would mean 10^9 callbacks)
     bool bigiv = r.chance(35);
@@ -1246,10 +1356,12 @@ static void gen_wrap_case(hv::rng &r)
 // starts in the future.  Intervals are never 0 modulo 2^32 and a timer whose start lies in the future gets a
 // large interval (an unsigned `check` sees a future start as "almost 2^32 ticks ago": it fires at once and
 // keeps firing until start has caught up).
-static void gen_wrap_outside_case(hv::rng &r)
+static void gen_wrap_outside_case_m(hv::rng &r, const std::string &mode);
+static void gen_wrap_outside_case(hv::rng &r) { gen_wrap_outside_case_m(r, "U"); }
+static void gen_wrap_outside_case_m(hv::rng &r, const std::string &mode)
 {
     int n = (int)r.range(1, 4);
-    emit("reset U " + S(n));
+    emit("reset " + mode + " " + S(n));
     bool small = r.chance(20);
     std::vector<i64> ivs = {P31 - 1, P31, P31 + 1, P32 - 1, P30, 3 * P30, P32 + P30 + 5, P32 - 2};
     if (small) ivs = {7, 100, P32 + 5, P32 - 1, P31};
@@ -1264,6 +1376,8 @@ static void gen_wrap_outside_case(hv::rng &r)
             i64 iv = r.pick(ivs);
             i64 st = now - (i64)r.below(5);
             if (r.chance(25)) { st = now + 1 + (i64)r.below(50); if (iv % P32 < P30) iv = P30 + (i64)r.below(1000); }
+            // a signed instance reads an interval >= 2^31 as negative: always due, exec would never return
+            if (mode == "I" && (iv % P32 >= P31 || iv % P32 == 0)) iv = P30 + iv % P30;
             emit("plan " + S(r.below(n)) + " " + S(st) + " " + S(iv));
         }
         else if (c < 52) emit("unplan " + S(r.below(n)));
@@ -1542,6 +1656,146 @@ static void gen_stimer_wide(hv::rng &r, int cases)
     }
 }
 
+
+// ---------------------------------------------------------------------------
+// round 3: stimer on raw `long` values (reset T) - every combination of
+//   interval {0, 1, 2, 250, LONG_MAX-1, LONG_MAX, LONG_MIN, -1} x start {0, 5250, near 2^63, near 2^64 (= -1 as long)}
+//   x curtime {start-250, start-2, start-1, start, start+1, deadline-1, deadline, deadline+1, half the range away, ...}
+// all computed modulo 2^64.  A start point AHEAD of the clock with a huge "never" interval is the shape the
+// seeded change C16-stimer-check-via-finish needs.
+// ---------------------------------------------------------------------------
+static long wadd(long a, long b) { return (long)((unsigned long)a + (unsigned long)b); }
+static void gen_stimer_long(hv::rng &r, bool th)
+{
+    static const std::vector<long> ivs = {0, 1, 2, 250, LONG_MAX - 1, LONG_MAX, LONG_MIN, -1, LONG_MIN + 1, 1000};
+    static const std::vector<long> starts = {0, 5250, LONG_MAX - 3, LONG_MAX, LONG_MIN, LONG_MIN + 5, -1, -3, -250};
+    static const std::vector<long> offs = {-250, -2, -1, 0, 1, 2, 250, LONG_MAX, LONG_MIN, LONG_MAX - 1, LONG_MIN + 1};
+    // the parked flag timer of the seeded change, first
+    emit("reset T");
+    emit("splan 5250 " + S(LONG_MAX));
+    emit("scheck 5000");
+    emit("scheck 5248");
+    emit("scheck 5249");
+    emit("scheck 5250");
+    emit("speriodic 5000");
+    emit("sfinish");
+    for (long iv : ivs)
+        for (long st : starts)
+        {
+            emit("reset T");
+            emit("splan " + S(st) + " " + S(iv));
+            emit("sfinish");
+            long dl = wadd(st, iv);
+            for (long o : offs) emit("scheck " + S(wadd(st, o)));
+            for (long o : {-1L, 0L, 1L}) emit("scheck " + S(wadd(dl, o)));
+            // one object, parameters changed between the calls
+            emit("speriodic " + S(wadd(st, -2)));
+            emit("speriodic " + S(wadd(dl, -1)));
+            emit("speriodic " + S(dl));
+            emit("speriodic " + S(dl));
+            emit("speriodic " + S(wadd(dl, iv)));
+            emit("sstart " + S(wadd(st, 7)));
+            emit("scheck " + S(wadd(st, 6)));
+            emit("scheck " + S(wadd(wadd(st, 7), iv)));
+            emit("sswift");
+            emit("sfinish");
+            emit("sinit " + S(st) + " " + S(iv));
+            emit("scheck " + S(dl));
+        }
+    int cases = th ? 4000 : 300;
+    for (int c = 0; c < cases; c++)
+    {
+        emit("reset T");
+        long st = wadd(r.pick(starts), r.range(-5, 5));
+        long iv = r.chance(50) ? r.pick(ivs) : (long)r.range(1, 40);
+        emit("splan " + S(st) + " " + S(iv));
+        int len = (int)r.range(3, 10);
+        long now = wadd(st, r.range(-260, 5));
+        for (int q = 0; q < len; q++)
+        {
+            unsigned m = (unsigned)r.below(100);
+            if (m < 10) { st = wadd(now, r.range(-3, 260)); iv = r.chance(50) ? r.pick(ivs) : (long)r.range(1, 40); emit("splan " + S(st) + " " + S(iv)); }
+            else if (m < 16) { st = wadd(now, r.range(-3, 3)); emit("sstart " + S(st)); }
+            else if (m < 22) { st = wadd(st, iv); emit("sswift"); }
+            else if (m < 28) emit("sfinish");
+            else
+            {
+                now = r.chance(40) ? wadd(wadd(st, iv), r.range(-1, 1)) : wadd(now, r.range(0, 300));
+                if (m < 60) emit("scheck " + S(now));
+                else emit("speriodic " + S(now));
+            }
+        }
+    }
+}
+
+// ---------------------------------------------------------------------------
+// round 3: timer_spec<int32_t> (signed 32-bit ticks: the counter wraps after 2^31 ticks) and the shipped
+// timer_spec<int64_t> run across the wrap of its 64-bit counter (reset l <n> <off>: every tick value of the op
+// lines is moved by <off> modulo 2^64 before the code sees it; the reference scheduler keeps the small values)
+// ---------------------------------------------------------------------------
+static void gen_signed_directed()
+{
+    // 10 ticks before the wrap of int32_t: deadlines before / after / exactly at 2^31, periodic through it
+    emit("reset i 3");
+    emit("plan 0 2147483638 5");    // deadline 2^31 - 5
+    emit("plan 1 2147483638 20");   // deadline 2^31 + 10
+    emit("plan 2 2147483638 10");   // deadline 2^31 exactly
+    emit("exec 2147483642 -");
+    emit("exec 2147483644 -");
+    emit("exec 2147483647 -");
+    emit("exec 2147483648 -");
+    emit("exec 2147483650 0@*:p1.2147483650.3");
+    emit("exec 2147483700 -");
+    emit("q 2147483700");
+    // the bit pattern passes 0 (2^32) and the sign bit again (3 * 2^31)
+    emit("reset i 2");
+    emit("plan 0 4294967286 4");
+    emit("plan 1 4294967286 25");
+    emit("exec 4294967295 -");
+    emit("exec 4294967296 -");
+    emit("exec 4294967330 1@0:u0");
+    emit("reset i 2");
+    emit("plan 0 6442450934 7");
+    emit("exec 6442450950 -");
+    emit("plan 1 6442450950 1000");
+    emit("exec 6442452000 -");
+    // int64_t: 10 ticks before 2^63 and 10 ticks before 2^64
+    emit("reset l 3 9223372036854775798");
+    emit("plan 0 0 5");
+    emit("plan 1 0 20");
+    emit("plan 2 0 10");
+    emit("exec 4 -");
+    emit("exec 6 -");
+    emit("exec 9 -");
+    emit("exec 10 -");
+    emit("exec 12 0@*:p1.12.3");
+    emit("exec 62 -");
+    emit("q 62");
+    emit("reset l 2 18446744073709551606");
+    emit("plan 0 0 4");
+    emit("plan 1 0 25");
+    emit("exec 9 -");
+    emit("exec 10 -");
+    emit("exec 44 1@0:u0");
+    // a start in the FUTURE on a signed instance is not due (the unsigned instance fires at once)
+    emit("reset I 1");
+    emit("plan 0 110 1073741824");
+    emit("exec 100 -");
+    emit("exec 1073741933 -");
+    emit("exec 1073741934 -");
+}
+static void gen_signed(hv::rng &r, bool th)
+{
+    gen_signed_directed();
+    static const std::vector<i64> b32 = {P31 - 10, P31 - 10, P31 - 40, P31 - 1000, P32 + P31 - 25, P32 - 10, 3 * P32 + P31 - 12, P31 - P30, 0};
+    static const std::vector<i64> b64 = {0, 0, 3, 1000};
+    static const std::vector<std::string> offs = {" 9223372036854775798", " 9223372036854775798", " 9223372036854775000", " 18446744073709551606",
+                                                  " 9223372036853775808", " 0", " 4611686018427387904"};
+    for (int c = 0; c < (th ? 8000 : 500); c++) gen_wrap_case_m(r, "i", "", b32);
+    for (int c = 0; c < (th ? 1000 : 100); c++) gen_wrap_outside_case_m(r, "I");
+    for (int c = 0; c < (th ? 6000 : 400); c++) gen_wrap_case_m(r, "l", r.pick(offs), b64);
+}
+
 static void gen_extensions(hv::rng &r, bool th)
 {
     gen_wrap_directed();
@@ -1553,6 +1807,8 @@ static void gen_extensions(hv::rng &r, bool th)
     for (int c = 0; c < (th ? 12000 : 1500); c++) gen_ext_case(r);
     for (int c = 0; c < (th ? 1500 : 200); c++) gen_unarmed_case(r);
     gen_stimer_wide(r, th ? 3000 : 400);
+    gen_stimer_long(r, th);
+    gen_signed(r, th);
 }
 
 static void gen(hv::rng &r, const std::string &tier)
